@@ -83,6 +83,9 @@ class Parser(object):
         self.yacc_tracking = yacc_tracking
 
         self.lexer = Lexer(with_comments=with_comments)
+        # the token in front of which a semicolon was last inserted by
+        # the error hook
+        self._semi_inserted_before = None
         self.lexer.build(optimize=lex_optimize, lextab=lextab)
         self.tokens = self.lexer.tokens
 
@@ -122,8 +125,22 @@ class Parser(object):
         """empty :"""
 
     def p_error(self, token):
+        if (token is not None and
+                token is self._semi_inserted_before and
+                token.type in ('DIV', 'DIVEQUAL')):
+            # a semicolon was inserted before this very token already
+            # and it is still not allowed: no statement starts with a
+            # division, so it has to begin a regular expression literal.
+            self._semi_inserted_before = None
+            regex_token = self.lexer.backtracked_token(
+                pos=len(token.value))
+            if regex_token.type == 'REGEX':
+                self.parser.errok()
+                return regex_token
+            self._raise_syntax_error(token)
         next_token = self.lexer.auto_semi(token)
         if next_token is not None:
+            self._semi_inserted_before = token
             self.parser.errok()
             return next_token
         # try to use the token in the actual lexer over the token that
